@@ -215,6 +215,9 @@ int snoopy_configfile_parseValue_filter_chain (
     const char *confValString,
     snoopy_configuration_t* CFG
 ) {
+    if (SNOOPY_TRUE == CFG->filter_chain_malloced) {
+        free(CFG->filter_chain);   // The option was already set (duplicate key or continuation line)
+    }
     CFG->filter_chain          = strdup(confValString);
     CFG->filter_chain_malloced = SNOOPY_TRUE;
 
@@ -248,6 +251,9 @@ int snoopy_configfile_parseValue_message_format (
     const char *confValString,
     snoopy_configuration_t* CFG
 ) {
+    if (SNOOPY_TRUE == CFG->message_format_malloced) {
+        free(CFG->message_format);   // The option was already set (duplicate key or continuation line)
+    }
     CFG->message_format          = strdup(confValString);
     CFG->message_format_malloced = SNOOPY_TRUE;
 
@@ -292,8 +298,6 @@ int snoopy_configfile_parseValue_output (
     // Check if configured value contains argument(s)
     if (NULL == strchr(confVal, ':')) {
         outputName = confVal;
-        CFG->output_arg          = "";
-        CFG->output_arg_malloced = SNOOPY_FALSE;
         outputArg  = "";
     } else {
         // Separate output name from its arguments
@@ -305,6 +309,21 @@ int snoopy_configfile_parseValue_output (
         outputName = confVal;
         outputArg  = firstColon + 1;
         outputArgFound = SNOOPY_TRUE;
+    }
+
+    // Release what a previous "output" line of the same file may have allocated
+    if (SNOOPY_TRUE == CFG->output_malloced) {
+        free(CFG->output);
+        CFG->output          = SNOOPY_OUTPUT_DEFAULT;
+        CFG->output_malloced = SNOOPY_FALSE;
+    }
+    if (SNOOPY_TRUE == CFG->output_arg_malloced) {
+        free(CFG->output_arg);
+        CFG->output_arg          = SNOOPY_OUTPUT_DEFAULT_ARG;
+        CFG->output_arg_malloced = SNOOPY_FALSE;
+    }
+    if (SNOOPY_FALSE == outputArgFound) {
+        CFG->output_arg = "";
     }
 
     // Determine output name
@@ -422,6 +441,9 @@ int snoopy_configfile_parseValue_syslog_ident (
     const char *confValString,
     snoopy_configuration_t* CFG
 ) {
+    if (SNOOPY_TRUE == CFG->syslog_ident_format_malloced) {
+        free(CFG->syslog_ident_format);   // The option was already set (duplicate key or continuation line)
+    }
     CFG->syslog_ident_format          = strdup(confValString);
     CFG->syslog_ident_format_malloced = SNOOPY_TRUE;
 
